@@ -33,7 +33,7 @@ func parseModelScalars(model string) map[string]string {
 }
 
 func runReplayHarness(verif, repo, prop string, o *Obligation, rec map[string]interface{}) bool {
-	short := shortKey(o.Fn)
+	short := strings.ReplaceAll(shortKey(o.Fn), "/", "_")
 	tmpl := filepath.Join(verif, "replay", short+".go.tmpl")
 	if _, err := os.Stat(tmpl); err != nil {
 		rec["replay"] = "no replay harness for " + short + "; the failed obligation and the solver output are recorded instead"
